@@ -9,6 +9,7 @@ import (
 	"strings"
 	"sync"
 	"testing"
+	"time"
 
 	"github.com/elk-language/elk/ext"
 	elktest "github.com/elk-language/elk/ext/std/test"
@@ -42,6 +43,10 @@ type testParams struct {
 	Capacity int      `json:"capacity"`
 	// ReporterStall: the reporter yields this many times per event
 	ReporterStall int `json:"reporter_stall"`
+	// ReporterSleepMs / ReporterSleepEvery: the reporter sleeps (simulated time) before it takes
+	// every n-th event: a paused terminal or an undrained pipe; the runner has to wait for it
+	ReporterSleepMs    int `json:"reporter_sleep_ms,omitempty"`
+	ReporterSleepEvery int `json:"reporter_sleep_every,omitempty"`
 }
 
 const testFilePath = "/x/gen_test.elk.test"
@@ -167,6 +172,13 @@ func (*c34Engine) Generate(seed uint64, tier string) *Case {
 	r := NewRand(seed)
 	src, cases, lines := genTestProgram(r)
 	p := testParams{Src: src, Cases: cases, Seed: r.U64(), Capacity: Pick(r, []int{1, 1, 2, 3, 10, 50}), ReporterStall: Pick(r, []int{0, 0, 1, 5, 40})}
+	if r.Chance(0.3) {
+		p.ReporterSleepMs = Pick(r, []int{5, 400, 1500, 3000, 20000})
+		p.ReporterSleepEvery = Pick(r, []int{1, 2, 5, 9})
+		if r.Chance(0.5) {
+			p.Capacity = Pick(r, []int{1, 2, 3}) // a small buffer fills at once
+		}
+	}
 	if r.Chance(0.45) {
 		// grep: a word, a case id, an alternation or an anchored name
 		switch r.Intn(4) {
@@ -269,10 +281,19 @@ type recReporter struct {
 	started []string
 	finish  map[string]elktest.TestStatus
 	stall   int
+	sleepMs int
+	every   int
+	seen    int
 }
 
 func (r *recReporter) Report(events chan *elktest.ReportEvent, shutdown context.CancelFunc) {
 	for {
+		r.seen++
+		if r.sleepMs > 0 && r.every > 0 && r.seen%r.every == 0 {
+			st := simhook.Block(1_000_012)
+			time.Sleep(time.Duration(r.sleepMs) * time.Millisecond)
+			simhook.Unblock(st, 1_000_012)
+		}
 		bt := simhook.Block(1_000_010)
 		e, ok := <-events
 		simhook.Unblock(bt, 1_000_010)
@@ -326,7 +347,7 @@ func (*c34Engine) Execute(t *testing.T, c *Case) *Verdict {
 		pathFilters = append(pathFilters, f)
 		elktest.RegisterFilter(f)
 	}
-	rep := &recReporter{finish: map[string]elktest.TestStatus{}, stall: p.ReporterStall}
+	rep := &recReporter{finish: map[string]elktest.TestStatus{}, stall: p.ReporterStall, sleepMs: p.ReporterSleepMs, every: p.ReporterSleepEvery}
 	var report *elktest.SuiteReport
 	var topErr string
 	cfg := c.Sched
@@ -353,7 +374,7 @@ func (*c34Engine) Execute(t *testing.T, c *Case) *Verdict {
 	})
 	v := &Verdict{Verdict: "ok", Property: "C34", Exec: 1, Res: &res}
 	v.Hash = hashStrings(string(c.Params), hashDecisions(res.Decisions))
-	filters := fmt.Sprintf("grep=%q paths=%q shuffle_seed=%d capacity=%d reporter_stall=%d", p.Grep, p.Paths, p.Seed, p.Capacity, p.ReporterStall)
+	filters := fmt.Sprintf("grep=%q paths=%q shuffle_seed=%d capacity=%d reporter_stall=%d reporter_sleep=%dms every %d events", p.Grep, p.Paths, p.Seed, p.Capacity, p.ReporterStall, p.ReporterSleepMs, p.ReporterSleepEvery)
 	bad := func(class, sig, format string, a ...any) *Verdict {
 		v.Verdict, v.Class, v.Sig = "violation", class, sig
 		v.Detail = fmt.Sprintf(format, a...) + "\n" + filters + "\n--- test file " + testFilePath + ":\n" + numbered(p.Src)
@@ -417,7 +438,7 @@ func (*c34Engine) Execute(t *testing.T, c *Case) *Verdict {
 	}
 	sort.Strings(got)
 	v.Nontrivial = len(p.Cases) > 0 && (p.Grep != "" || len(p.Paths) > 0 || res.Switches > 2)
-	v.Extra = map[string]int64{"cases": int64(len(p.Cases)), "selected": int64(len(want)), "with_grep": b2i(p.Grep != ""), "with_path": b2i(len(p.Paths) > 0), fmt.Sprintf("paths_%d", len(p.Paths)): 1, fmt.Sprintf("capacity_%d", p.Capacity): 1, "empty_selection": b2i(len(want) == 0)}
+	v.Extra = map[string]int64{"cases": int64(len(p.Cases)), "selected": int64(len(want)), "with_grep": b2i(p.Grep != ""), "with_path": b2i(len(p.Paths) > 0), fmt.Sprintf("paths_%d", len(p.Paths)): 1, fmt.Sprintf("capacity_%d", p.Capacity): 1, "reporter_sleeps": b2i(p.ReporterSleepMs > 0), "empty_selection": b2i(len(want) == 0)}
 	v.Sample = map[string]any{"filters": filters, "cases": len(p.Cases), "selected": want, "started": rep.started}
 	grepAndLine := p.Grep != "" && len(p.Paths) > 0
 	if d := diffMultiset(want, got); d != "" {
